@@ -390,6 +390,13 @@ func (c13) Run(c *Case, st *Stats) []Violation {
 					off = 0 // a look-back of centuries: the data lies around now, all of it inside the window
 				}
 				all := genSnapshots(a.SrcN, int(a.Seed%int64(NumShapes)), a.Seed, today.AddDate(0, 0, a.SrcFrom-a.SrcN+1+off))
+				if a.Seed%9 == 0 && len(all) > 0 {
+					// the latest bar carries no closing price (reported as 0): it is still a snapshot of the window
+					z := *all[len(all)-1]
+					z.Close = 0
+					all[len(all)-1] = &z
+					st.Faults["latest-snapshot-without-a-closing-price"]++
+				}
 				if k := a.SrcSwap; k > 0 && k < len(all) {
 					all[k-1], all[k] = all[k], all[k-1] // stored out of date order (a late correction)
 					st.Faults["asset-stored-out-of-date-order"]++
@@ -830,7 +837,7 @@ func (c13) Run(c *Case, st *Stats) []Violation {
 			return vs
 		}
 		for i, r := range rows {
-			if bo, ok := best[r.Key]; !ok || bo != r.Outcome {
+			if bo, ok := best[r.Key]; !ok || (bo != r.Outcome && !(math.IsNaN(bo) && math.IsNaN(r.Outcome))) {
 				add("best-entry-not-maximal", regime, fmt.Sprintf("index.html shows %.2f%% for %s, the best outcome of that asset is %.2f%%", r.Outcome, r.Key, bo))
 				return vs
 			}
